@@ -10,9 +10,9 @@ TRUSTED_BASE = ['pyvc VC generator', 'z3 5.1', 'cvc5 1.0.3 (only for queries z3 
 PROPS = {
     'C04': dict(
         level='proof',
-        contracts=['C04', 'body_read'],
+        contracts=['C04', 'body_read', 'body_access'],
         frames=[],
-        technique='deductive: loop-invariant VCs generated from the real AST of _iter_body/_body_read, discharged by z3/cvc5; '
+        technique='deductive: loop-invariant VCs generated from the real AST of _iter_body/_body_read/_body/body, discharged by z3/cvc5; '
                   'bounded run-time contract check as replay harness',
         explanation='VCs over the real source of the Content-Length reader: invariant (delivered++stream == stream0, '
                     'accounting, within Content-Length), exactness postcondition, read-argument bound, termination variant.',
@@ -23,7 +23,7 @@ PROPS = {
     ),
     'C05': dict(
         level='proof',
-        contracts=['C05', 'body_read'],
+        contracts=['C05', 'body_read', 'body_access'],
         frames=[],
         technique='deductive: loop-invariant VCs over ghost stream state generated from the real AST of _iter_chunked / _body_read, '
                   'z3 then cvc5; bounded run-time contract check against an RFC 7230 reference decoder as replay harness',
@@ -40,7 +40,7 @@ PROPS = {
     ),
     'C13': dict(
         level='proof',
-        contracts=['body_read', 'C04', 'C05', 'C12'],
+        contracts=['body_read', 'C04', 'C05', 'C12', 'fieldstorage', 'body_access'],
         frames=['errors_map_const'],
         technique='deductive: loop-invariant VCs from the real AST of _body_read (limit, spooling, content) on top of the proved '
                   'generator contracts of _iter_body/_iter_chunked (part size <= buffer); bounded run-time check as replay harness',
@@ -244,7 +244,7 @@ PROPS = {
         level_note='Bounds are stated in coverage.bounded.bound.',
     ),
     'C12': dict(
-        level='other', contracts=['C05', 'body_read', 'C18', 'C12'], frames=['errors_map_const'],
+        level='other', contracts=['C05', 'body_read', 'C18', 'C12', 'fieldstorage', 'body_access'], frames=['errors_map_const'],
         technique='bounded run-time contract check of grammar-mutated bodies through Ombott.__call__ (status class, delivered fields complete); '
                   'proved exception frames of _iter_chunked, _body_read, _raise, _get_body_string, json; termination of the readers and of parse_qsl',
         explanation='BOUNDED grammar mutations, truncations, byte mutations, small-scope bodies; proved: _iter_chunked raises only BodyParsingError, '
